@@ -237,7 +237,7 @@ PROPS['C12'] = {
              {'name': 'native', 'flavour': 'asan-native', 'driver': 'drv_c12', 'env': {'PV_SCALE': '15'}, 'shards': 4},
              {'name': 'msan', 'flavour': 'msan', 'driver': 'drv_c12', 'env': {'PV_SCALE': '15', 'PV_NO_STATIC_MONITOR': '1'}, 'shards': 4}],
     'require': {'involution.restored': 20000, 'crypt.under_a_different_feature_mask': 10000, 'cases.all_clauses_held': 20000, 'crypt.mask_source.boundary': 5000, 'crypt.mask_source.random': 5000,
-                'equivalent_spellings.agree(forms really differ)': 1500, 'crypt.password.empty': 500, 'crypt.password.hangul': 500},
+                'equivalent_spellings.agree(forms really differ)': 1500, 'crypt.password.empty': 500, 'crypt.password.hangul': 500, 'crypt.with_failing_allocator': 5000},
 }
 MANIFEST_TEXT['C12'] = {'technique': 'runtime monitoring: PBKDF2 monitor with scripted masks + model of the password operation, observed through every seed observer and round trips (ASan/UBSan)',
     'text': 'Seeds x a password alphabet (empty, ASCII, accented NFC/NFD, Hangul, kana with dakuten, fullwidth, ligatures, random Unicode, long) x KDF masks (all-00, all-FF, only the two dropped bits, only byte 18, single bits, only ignored bytes, random, or an argument-mixing stand-in) x up to 7 applications: after each application the monitor must have seen exactly (NFKD(password), length, salt, 16, 10000, 32) and the seed must equal the model in store bytes (incl. recomputed check value), getters and KDF inputs, and must survive store/load and encode/decode; the same password twice must restore the seed bit for bit; NFC/NFD spellings must give identical results.',
@@ -323,9 +323,9 @@ MANIFEST_TEXT['C13'] = {'technique': 'runtime monitoring: lock-step execution of
 
 PROPS['C20'] = {
     'level': 'exploration',
-    'runs': [{'name': 'tsan', 'flavour': 'tsan-wrap', 'driver': 'drv_c20', 'shards': 6, 'log_scan': 'tsan', 'timeout': 1800, 'timeout_thorough': 10800},
-             {'name': 'tsan-Os', 'flavour': 'tsan-wrap-Os', 'driver': 'drv_c20', 'shards': 6, 'log_scan': 'tsan', 'env': {'PV_SCALE': '50'}, 'timeout': 1800, 'timeout_thorough': 10800},
-             {'name': 'tsan-O3', 'flavour': 'tsan-wrap-O3', 'driver': 'drv_c20', 'shards': 6, 'log_scan': 'tsan', 'env': {'PV_SCALE': '50'}, 'timeout': 1800, 'timeout_thorough': 10800}],
+    'runs': [{'name': 'tsan', 'flavour': 'tsan-wrap', 'driver': 'drv_c20', 'shards': 6, 'log_scan': 'tsan', 'timeout': 1800, 'timeout_thorough': 10800, 'case_timeout': 900},
+             {'name': 'tsan-Os', 'flavour': 'tsan-wrap-Os', 'driver': 'drv_c20', 'shards': 6, 'log_scan': 'tsan', 'env': {'PV_SCALE': '50'}, 'timeout': 1800, 'timeout_thorough': 10800, 'case_timeout': 900},
+             {'name': 'tsan-O3', 'flavour': 'tsan-wrap-O3', 'driver': 'drv_c20', 'shards': 6, 'log_scan': 'tsan', 'env': {'PV_SCALE': '50'}, 'timeout': 1800, 'timeout_thorough': 10800, 'case_timeout': 900}],
     'require': {'threads.digest_equal_to_solo': 60, 'overlap.total': 200000, 'overlap.crypt+decode': 50, 'overlap.encode+encode': 50, 'overlap.create+free': 50, 'overlap.decode+decode': 50,
                 'rounds.8_threads': 4, 'rounds.16_threads': 4, 'rounds.table.all-entries-injected': 2, 'rounds.table.time-NULL(libc-clock)': 2, 'rounds.table.time+alloc+free-NULL(libc)': 2, 'ops.create_with_failing_or_odd_clock': 300, 'ops.decode_with_lang_out_NULL': 3000},
 }
